@@ -199,7 +199,10 @@ pub fn gen_vector(rng: &mut Rng, id: String, fam: &str, cont: &str, n: usize, pr
             rand_cmds(rng, n, len, group, nchildren)
         }
     };
-    if group && profile != "mixed" {
+    if group && rng.chance(12) {
+        // the group is built by `FromIterator` (collect) instead of new / with_capacity
+        cmds.insert(0, json!(["fromiter", 1 + rng.below(4)]));
+    } else if group && profile != "mixed" {
         // make sure something is inserted
         cmds.insert(0, json!(["insert"]));
     }
